@@ -3,7 +3,9 @@
    actions of ArraySeq.  One ndjson line per public call: op, arguments, and after the call the length and the
    reference count of the handle it went through; "check" events carry the complete projection of every live
    handle.  The trace is accepted iff every line is a step of the corresponding ArraySeq action whose post-state
-   matches what the implementation reported.                                                                   *)
+   matches what the implementation reported.  Calls that only read (enum, indexOf, top, cmp, join) log the value
+   the implementation returned; the action computes what it must be (for operator< only where the specification
+   fixes it, see Lt3; for sortBy with the parity key any permutation ordered by the key is accepted).            *)
 EXTENDS ArraySeq, IOUtils
 
 T == ndJsonDeserialize(IOEnv.TRACE)
@@ -35,7 +37,7 @@ TStep ==
      \/ /\ e.op = "insert" /\ Insert1(e.h, e.k, e.v) /\ PostOK(e)
      \/ /\ e.op = "insertSelf" /\ InsertSelf(e.h, e.k, e.i) /\ PostOK(e)
      \/ /\ e.op = "set" /\ SetElem(e.h, e.i, e.v) /\ PostOK(e)
-     \/ /\ e.op = "remove" /\ RemoveN(e.h, e.i, e.n) /\ PostOK(e)
+     \/ /\ e.op = "remove" /\ e.n > 0 /\ RemoveN(e.h, e.i, e.n) /\ PostOK(e)
      \/ /\ e.op = "removeOne" /\ RemoveOne(e.h, e.v) /\ hist'[Len(hist')].r = e.r /\ PostOK(e)
      \/ /\ e.op = "removeLast" /\ RemoveLast(e.h) /\ PostOK(e)
      \/ /\ e.op = "removeIf" /\ RemoveIf(e.h, e.v) /\ PostOK(e)
@@ -58,6 +60,29 @@ TStep ==
      \/ /\ e.op = "popget" /\ PopGet(e.h) /\ hist'[Len(hist')].r = e.r /\ PostOK(e)
      \/ /\ e.op = "pop" /\ PopN(e.h, e.n) /\ PostOK(e)
      \/ /\ e.op = "get" /\ QGet(e.h) /\ hist'[Len(hist')].r = e.r /\ PostOK(e)
+     \* the remaining Array surface
+     \/ /\ e.op = "ctorN" /\ CtorN(e.g, e.n) /\ PostOK(e)
+     \/ /\ e.op = "ctorFill" /\ CtorFill(e.g, e.n, e.v) /\ PostOK(e)
+     \/ /\ e.op = "fromList" /\ FromList(e.g, e.s, e.via) /\ PostOK(e)
+     \/ /\ e.op = "ctorPtr" /\ CtorPtr(e.h, e.g, e.i, e.n) /\ PostOK(e)
+     \/ /\ e.op = "appendPtr" /\ AppendPtr(e.h, e.g, e.i, e.n) /\ PostOK(e)
+     \/ /\ e.op = "copyPtr" /\ CopyPtr(e.h, e.g, e.i, e.n) /\ PostOK(e)
+     \/ /\ e.op = "assignList" /\ AssignList(e.h, e.s) /\ PostOK(e)
+     \/ /\ e.op = "appendList" /\ AppendList(e.h, e.s) /\ PostOK(e)
+     \/ /\ e.op = "conv" /\ Convert(e.h, e.g, e.via) /\ PostOK(e)
+     \/ /\ e.op = "assignConv" /\ AssignConv(e.h, e.g) /\ PostOK(e)
+     \/ /\ e.op = "sortDesc" /\ SortDesc(e.h) /\ PostOK(e)
+     \/ /\ e.op = "sortBy" /\ SortByKey(e.h, e.asc) /\ PostOK(e)
+     \/ /\ e.op = "sortByPar" /\ SortByPar(e.h, e.s2) /\ PostOK(e)
+     \/ /\ e.op = "removeIfLt" /\ RemoveIfLt(e.h, e.v) /\ PostOK(e)
+     \/ /\ e.op = "removeOneFrom" /\ RemoveOneFrom(e.h, e.v, e.i) /\ hist'[Len(hist')].r = e.r /\ PostOK(e)
+     \/ /\ e.op = "remove" /\ e.n = 0 /\ RemoveNone(e.h, e.i) /\ PostOK(e)
+     \/ /\ e.op = "enum" /\ EnumRange(e.h, e.i1, e.i2, e.via) /\ hist'[Len(hist')].r = e.r /\ PostOK(e)
+     \/ /\ e.op = "indexOf" /\ IndexOfFrom(e.h, e.v, e.j) /\ hist'[Len(hist')].r = e.r /\ PostOK(e)
+     \/ /\ e.op = "top" /\ TopAt(e.h, e.i) /\ hist'[Len(hist')].r = e.r /\ PostOK(e)
+     \/ /\ e.op = "cmp" /\ Compare(e.h, e.g) /\ hist'[Len(hist')].eq = e.eq
+                        /\ (hist'[Len(hist')].lt = 2 \/ hist'[Len(hist')].lt = e.lt) /\ PostOK(e)
+     \/ /\ e.op = "join" /\ Join(e.h, e.tt, e.sep) /\ hist'[Len(hist')].r = e.r /\ PostOK(e)
 
 TraceSpec == TInit /\ [][TStep]_tvars
 TraceAccepted == TLCGet("stats").diameter - 1 = Len(T)
